@@ -91,6 +91,8 @@ def declare(w):
     w.attr_hooks[("Function", "__closure__")] = lambda ex, st, recv: SV(OPT(INT), (z3.Not(st.heap.get(recv, "$has_closure").v), core.mk_int(1)))
     w.attr_hooks[("Function", "__code__")] = lambda ex, st, recv: SV(REF("Code"), recv.v)
     s.set_bases("Code", ["object"])
+    # co_names: the names the OUTER code object refers to - says nothing about nested defs / lambdas / class bodies (any tuple of names)
+    w.attr_hooks[("Code", "co_names")] = lambda ex, st, recv: SV(SEQ(STR), z3.Function("co_names", z3.IntSort(), z3.SeqSort(z3.StringSort()))(recv.v))
     w.attr_hooks[("Code", "co_firstlineno")] = lambda ex, st, recv: st.heap.get(SV(REF("Function"), recv.v), "$firstlineno")
 
     w.add(Contract(f"{GW}:_find_non_builtin_globals", {"source": STR, "codeobj": REF("Code")},
